@@ -7,9 +7,9 @@ from .abstraction import matrix_from_pluecker, pluecker_dual
 
 
 def G():
-    import geometer
+    from .core import import_geometer
 
-    return geometer
+    return import_geometer()
 
 
 def to_np(v):
